@@ -77,6 +77,7 @@ def run(ctx):
     unprefixed_namespaces_twins_and_simple_derivations(ctx)
     from harness.props import c07
     c07.handwritten_renderings(ctx)      # (blocks that name their own namespace by prefix / by default / not at all)
+    c07.groups_twice_ref_defaults_and_shared_names(ctx)      # (a referenced element's default is what a None is sent as)
     headers_mixing_elements_and_values(ctx)
     tuples_for_repeated_elements(ctx)
     # a wrapper element whose named type lives in another namespace keeps the element's namespace (shared with C08)
